@@ -502,12 +502,67 @@ func renameEvent(g *Gen) J {
 	return ev
 }
 
+// bringEvent: a list-level variable, at the top of the template or one or two lists further down, is filled with an item
+// that has variables of its own; a second call then fills those. The result is the item constructed directly with
+// everything in place. If a name the item brings is already used elsewhere in the template, the first call is refused.
+func bringEvent(g *Gen) J {
+	clash := g.pick(4) == 0
+	var bring *GItem
+	switch g.pick(3) {
+	case 0:
+		bring = &GItem{F: "U2", Vals: []interface{}{uint64(7), "in9a"}}
+	case 1:
+		bring = &GItem{F: "L", Kids: []*GItem{{F: "A", IsVar: true, Var: "in9a", Lo: 0, Hi: -1}, {F: "BOOLEAN", Vals: []interface{}{"in9b", true}}}}
+	default:
+		bring = &GItem{F: "L", Kids: []*GItem{{F: "I1", Vals: []interface{}{int64(-1)}}, {F: "L", Kids: []*GItem{{F: "F8", Vals: []interface{}{"in9a"}}}}}}
+	}
+	other := "other9"
+	if clash {
+		other = "in9a"
+	}
+	cur := &GItem{F: "L", Kids: []*GItem{{F: "A", Str: "k"}, {F: "", Var: "hole9"}}}
+	depth := g.pick(3)
+	for d := 0; d < depth; d++ {
+		cur = &GItem{F: "L", Kids: []*GItem{{F: "U1", Vals: []interface{}{uint64(d)}}, cur}}
+	}
+	tm := &GItem{F: "L", Kids: []*GItem{cur, {F: "I4", Vals: []interface{}{other, int64(5)}}}}
+	if g.pick(2) == 0 {
+		tm = &GItem{F: "L", Kids: []*GItem{{F: "I4", Vals: []interface{}{other}}, cur}}
+	}
+	t := tm.Build()
+	bi := bring.Build()
+	sigma2 := g.fillValues(bring, nil)
+	fmts := map[string]string{}
+	collectFormats(bring, fmts)
+	s2 := []interface{}{}
+	for _, k := range sortedKeys(sigma2) {
+		s2 = append(s2, J{"k": chars(k), "v": valueJ(fmts[k], sigma2[k])})
+	}
+	ev := J{"ev": "fillbring", "tmpl": observe(t), "depth": depth, "clash": clash,
+		"sigma1": []interface{}{J{"k": chars("hole9"), "v": projItem(bi)}}, "sigma2": s2}
+	one, r1 := outcomeOf(func() ast.ItemNode { return t.FillVariables(map[string]interface{}{"hole9": bi}) })
+	ev["one"] = one
+	ev["two"], ev["direct"] = J{"outcome": "refused"}, J{"outcome": "refused"}
+	if r1 != nil {
+		ev["two"], _ = outcomeOf(func() ast.ItemNode { return r1.FillVariables(sigma2) })
+		ev["direct"], _ = outcomeOf(func() ast.ItemNode {
+			return substG(tm, map[string]*GItem{"hole9": substG(bring, nil, sigma2)}, map[string]interface{}{}).Build()
+		})
+	}
+	return ev
+}
+
 func driverFill(c *Ctx) {
 	for i := 0; i < c.N; i++ {
 		if !c.want(i) {
 			continue
 		}
 		g := c.gen(i)
+		if i%12 == 5 {
+			c.emit(i, bringEvent(g))
+			c.count("fill.brought-variables")
+			continue
+		}
 		if i%12 == 11 {
 			c.emit(i, renameEvent(g))
 			c.count("fill.renames")
@@ -580,10 +635,18 @@ func driverFill(c *Ctx) {
 		// the same through a message: bytes after completing
 		gm := g.header(true)
 		var mb, db J = J{"outcome": "refused"}, J{"outcome": "refused"}
-		order := g.pick(3)
+		order := g.pick(4)
 		try(func() {
 			m := ast.NewDataMessage(gm.Name, gm.S, gm.F, 2, gm.Dir, t)
 			switch order { // the producers in every order
+			case 3:
+				// the system bytes are reserved first (no session id yet), the session id comes last, with the message's own bytes
+				m = m.SetSessionIDAndSystemBytes(-1, gm.Sys)
+				for _, st := range steps {
+					m = m.FillVariables(st)
+				}
+				m = m.SetWaitBit(gm.W == 1)
+				m = m.SetSessionIDAndSystemBytes(gm.Sid, m.SystemBytes())
 			case 0:
 				m = m.FillVariables(sigma).SetWaitBit(gm.W == 1).SetSessionIDAndSystemBytes(gm.Sid, gm.Sys)
 			case 1:
